@@ -1,19 +1,21 @@
 (* XCodegenExpr.v -- a model of xcmp's expression code generation (xcmp.hpp ExprCodeGen, genBinopOperands,
    genConst, genVar) for the fragment
-       e ::= number | global variable | e + r | e - r      with r a constant subtree or a global variable
-   (right operands that xcmp loads straight into breg: needsAReg is false, nothing is spilled), including
-   xcmp's constant folding of number-only subtrees, and its correctness against the ISA spec Isa.step and
-   the X spec XSem.eval.
+       e ::= number | global variable | e + e | e - e          (any nesting on both sides)
+   including xcmp's constant folding of number-only subtrees and its spilling of right operands that need
+   areg (needsAReg: the right operand is generated first, saved in a frame temporary, the left operand is
+   generated with the frame offset bumped, the temporary is reloaded into breg), and its correctness against
+   the ISA spec Isa.step and the X spec XSem.eval.
 
    Interface to the assembler (Layer A of DESIGN.md C01): `instr_at m pos nxt i` says that the bytes of
    instruction i occupy [pos, nxt) of memory m in the sense of the ISA itself -- started at pos with a clear
-   operand register the ISA runs through the prefix bytes (Tau steps that change nothing but pc and oreg) and
+   operand register the ISA runs through the prefix bytes (silent steps that change nothing but pc and oreg) and
    arrives at the instruction byte with i's opcode and i's 32-bit operand accumulated.  That is what
    AsmSpecProofs.decode_exec establishes for every image the assembler validator accepts.
 
    cg_correct: if XSem evaluates e to n (so no overflow, no unassigned read), then running the generated code
-   from its first byte leaves n mod 2^32 in areg, the memory unchanged, the operand register clear and the
-   program counter just behind the code -- for every nesting depth of the left operand. *)
+   from its first byte leaves n mod 2^32 in areg, the operand register clear, the program counter just behind
+   the code, and a memory that differs from the initial one only in frame temporaries at or above the current
+   frame offset -- for every nesting depth. *)
 From Coq Require Import ZArith List String Bool Lia.
 From HexVerif Require Import WMap Isa XAst XSem.
 Import ListNotations.
@@ -23,7 +25,7 @@ Ltac Zify.zify_post_hook ::= Z.div_mod_to_equations.
 
 (* ---------------------------------------------------------------- the generated instructions *)
 Inductive reg := RA | RB.
-Inductive instr := LDAC (v : Z) | LDBC (v : Z) | LDAM (a : Z) | LDBM (a : Z) | ADD | SUB.
+Inductive instr := LDAC (v : Z) | LDBC (v : Z) | LDAM (a : Z) | LDBM (a : Z) | ADD | SUB | STAI (k : Z) | LDBI (k : Z).
 
 (* opcode nibble and the 32-bit operand the ISA must have accumulated at the instruction byte *)
 Definition opcode (i : instr) : Z * Z :=
@@ -34,6 +36,8 @@ Definition opcode (i : instr) : Z * Z :=
   | LDBC v => (4, v mod W)
   | ADD => (13, 1)
   | SUB => (13, 2)
+  | STAI k => (8, k)
+  | LDBI k => (7, k)
   end.
 
 (* ---------------------------------------------------------------- model of the code generator *)
@@ -62,8 +66,11 @@ Section Codegen.
     | None => match e with EVar _ => true | _ => false end
     end.
 
-  (* genExpr(e, reg) *)
-  Fixpoint cg (e : expr) (r : reg) : option (list instr) :=
+  Variable size : Z.         (* the frame size of the procedure (known when the directives are lowered) *)
+  Variable nslots : Z.       (* frame words available for temporaries *)
+
+  (* genExpr(e, reg) at frame offset off; a frame-base relative slot -off is lowered to sp + size - 1 - off *)
+  Fixpoint cg (e : expr) (r : reg) (off : Z) : option (list instr) :=
     match const_of e with
     | Some v => if small v then Some [ldc r v] else None
     | None =>
@@ -72,12 +79,20 @@ Section Codegen.
         | EBin o l rr =>
             match o, r with
             | Plus, RA | Minus, RA =>
+                let opi := match o with Plus => ADD | _ => SUB end in
                 if simple_right rr then
-                  match cg l RA, cg rr RB with
-                  | Some cl, Some cr => Some (cl ++ cr ++ [match o with Plus => ADD | _ => SUB end])
+                  match cg l RA off, cg rr RB off with
+                  | Some cl, Some cr => Some (cl ++ cr ++ [opi])
                   | _, _ => None
                   end
-                else None           (* the right operand is spilled to the frame: not in this fragment *)
+                else if (0 <=? off) && (off <? nslots) then
+                  (* genBinopOperands, needsAReg(RHS): RHS first, saved at frame offset off; LHS at off + 1 *)
+                  match cg rr RA off, cg l RA (off + 1) with
+                  | Some cr, Some cl =>
+                      Some (cr ++ [LDBM 1; STAI (size - 1 - off)] ++ cl ++ [LDBM 1; LDBI (size - 1 - off)] ++ [opi])
+                  | _, _ => None
+                  end
+                else None
             | _, _ => None
             end
         | _ => None
@@ -88,49 +103,57 @@ End Codegen.
 (* ---------------------------------------------------------------- the ISA on instruction bytes *)
 Definition mk (p a b o : Z) (m : WMap.t) : arch := {| pc := p; areg := a; breg := b; oreg := o; mem := m |}.
 
-(* silent steps: Tau events, input untouched *)
-Inductive taus (inp : inputs) : arch -> arch -> Prop :=
-| taus_refl : forall s, taus inp s s
-| taus_step : forall s s1 s2, step s inp = Ok (s1, inp, Tau) -> taus inp s1 s2 -> taus inp s s2.
+(* silent runs: some number of instructions that emit no event and leave the input untouched *)
+Definition taus (inp : inputs) (s s' : arch) : Prop :=
+  exists k, Isa.run k s inp [] = ([], inp, s', Cut).
+
+Lemma run_compose : forall k1 s inp0 evs l inp1 s1,
+  Isa.run k1 s inp0 evs = (l, inp1, s1, Cut) ->
+  forall k2, Isa.run (k1 + k2) s inp0 evs = Isa.run k2 s1 inp1 (rev l).
+Proof.
+  induction k1 as [|k IH]; intros s inp0 evs l inp1 s1 H k2.
+  - cbn [Isa.run] in H. inversion H; subst. rewrite rev_involutive. reflexivity.
+  - cbn [Isa.run Nat.add] in *. destruct (step s inp0) as [[[s' inp'] ev]|u]; [|discriminate].
+    destruct ev; try discriminate; eapply IH; exact H.
+Qed.
+
+Lemma taus_refl inp s : taus inp s s.
+Proof. exists O. reflexivity. Qed.
 
 Lemma taus_trans inp s1 s2 s3 : taus inp s1 s2 -> taus inp s2 s3 -> taus inp s1 s3.
-Proof. induction 1; intros H3; [exact H3|]. eapply taus_step; [eassumption|]. apply IHtaus. exact H3. Qed.
+Proof.
+  intros [k1 H1] [k2 H2]. exists (k1 + k2)%nat.
+  rewrite (run_compose k1 s1 inp [] [] inp s2 H1 k2). exact H2.
+Qed.
 
 Lemma taus_one inp s s1 : step s inp = Ok (s1, inp, Tau) -> taus inp s s1.
-Proof. intros H. eapply taus_step; [exact H | apply taus_refl]. Qed.
-
-(* a run of silent steps is a run of Isa.run that emits nothing *)
-Lemma taus_run inp s s' : taus inp s s' -> exists k, forall evs, Isa.run k s inp evs = (rev evs, inp, s', Cut).
-Proof.
-  induction 1 as [s|s s1 s2 Hs _ [k IH]].
-  - exists O. intros evs. reflexivity.
-  - exists (S k). intros evs. cbn [Isa.run]. rewrite Hs. apply IH.
-Qed.
+Proof. intros H. exists 1%nat. cbn [Isa.run]. rewrite H. reflexivity. Qed.
 
 Definition at_byte (s : arch) (opc o : Z) : Prop :=
   in_mem (pc s / 4) = true /\ fetch s / 16 = opc /\ Z.lor (oreg s) (fetch s mod 16) = o.
 
-Definition instr_at (m : WMap.t) (pos nxt : Z) (i : instr) : Prop :=
+(* C: the memories in which the code is intact (the code generator's stores go to frame words only) *)
+Definition instr_at (C : WMap.t -> Prop) (pos nxt : Z) (i : instr) : Prop :=
   0 <= pos < nxt /\
-  forall a b inp, exists s',
+  forall m a b inp, C m -> exists s',
     taus inp (mk pos a b 0 m) s' /\ pc s' = nxt - 1 /\ areg s' = a /\ breg s' = b /\ mem s' = m /\
     at_byte s' (fst (opcode i)) (snd (opcode i)).
 
-Fixpoint code_at (m : WMap.t) (pos : Z) (c : list instr) (nxt : Z) : Prop :=
+Fixpoint code_at (C : WMap.t -> Prop) (pos : Z) (c : list instr) (nxt : Z) : Prop :=
   match c with
   | [] => pos = nxt
-  | i :: r => exists mid, instr_at m pos mid i /\ code_at m mid r nxt
+  | i :: r => exists mid, instr_at C pos mid i /\ code_at C mid r nxt
   end.
 
-Lemma code_at_le m : forall c pos nxt, code_at m pos c nxt -> pos <= nxt.
+Lemma code_at_le C : forall c pos nxt, code_at C pos c nxt -> pos <= nxt.
 Proof.
   induction c as [|i r IH]; intros pos nxt H; cbn [code_at] in H.
   - lia.
   - destruct H as (mid & [Hp _] & Hr). specialize (IH mid nxt Hr). lia.
 Qed.
 
-Lemma code_at_app m : forall c1 c2 pos nxt,
-  code_at m pos (c1 ++ c2) nxt -> exists mid, code_at m pos c1 mid /\ code_at m mid c2 nxt.
+Lemma code_at_app C : forall c1 c2 pos nxt,
+  code_at C pos (c1 ++ c2) nxt -> exists mid, code_at C pos c1 mid /\ code_at C mid c2 nxt.
 Proof.
   induction c1 as [|i r IH]; intros c2 pos nxt H; cbn [app code_at] in *.
   - exists pos. split; [reflexivity | exact H].
@@ -163,24 +186,41 @@ Lemma step_sub s inp : at_byte s 13 2 ->
   step s inp = Ok (mk (wrap (pc s + 1)) (wrap (areg s - breg s)) (breg s) 0 (mem s), inp, Tau).
 Proof. intros (Hm & Hop & Ho). unfold step. rewrite Hm. cbv beta iota zeta delta [negb]. rewrite Hop, Ho. reflexivity. Qed.
 
-(* what an instruction does to areg/breg *)
-Definition sem (i : instr) (a b : Z) (m : WMap.t) : Z * Z :=
-  match i with
-  | LDAC v => (v mod W, b)
-  | LDBC v => (a, v mod W)
-  | LDAM x => (rd m x, b)
-  | LDBM x => (a, rd m x)
-  | ADD => (wrap (a + b), b)
-  | SUB => (wrap (a - b), b)
-  end.
-Definition readable (i : instr) : Prop :=
-  match i with LDAM x => in_mem x = true | LDBM x => in_mem x = true | _ => True end.
+Lemma step_stai s inp o : at_byte s 8 o -> in_mem (wrap (breg s + o)) = true ->
+  step s inp = Ok (mk (wrap (pc s + 1)) (areg s) (breg s) 0 (wr (mem s) (wrap (breg s + o)) (areg s)), inp, Tau).
+Proof. intros (Hm & Hop & Ho) Hin. unfold step. rewrite Hm. cbv beta iota zeta delta [negb]. rewrite Hop, Ho, Hin. reflexivity. Qed.
 
-Lemma exec_instr m pos nxt i a b inp :
-  instr_at m pos nxt i -> readable i -> nxt < W ->
-  taus inp (mk pos a b 0 m) (mk nxt (fst (sem i a b m)) (snd (sem i a b m)) 0 m).
+Lemma step_ldbi s inp o : at_byte s 7 o -> in_mem (wrap (breg s + o)) = true ->
+  step s inp = Ok (mk (wrap (pc s + 1)) (areg s) (rd (mem s) (wrap (breg s + o))) 0 (mem s), inp, Tau).
+Proof. intros (Hm & Hop & Ho) Hin. unfold step. rewrite Hm. cbv beta iota zeta delta [negb]. rewrite Hop, Ho, Hin. reflexivity. Qed.
+
+(* what an instruction does to areg, breg and memory *)
+Definition sem (i : instr) (a b : Z) (m : WMap.t) : Z * Z * WMap.t :=
+  match i with
+  | LDAC v => (v mod W, b, m)
+  | LDBC v => (a, v mod W, m)
+  | LDAM x => (rd m x, b, m)
+  | LDBM x => (a, rd m x, m)
+  | ADD => (wrap (a + b), b, m)
+  | SUB => (wrap (a - b), b, m)
+  | STAI k => (a, b, wr m (wrap (b + k)) a)
+  | LDBI k => (a, rd m (wrap (b + k)), m)
+  end.
+Definition readable (i : instr) (b : Z) : Prop :=
+  match i with
+  | LDAM x => in_mem x = true
+  | LDBM x => in_mem x = true
+  | STAI k => in_mem (wrap (b + k)) = true
+  | LDBI k => in_mem (wrap (b + k)) = true
+  | _ => True
+  end.
+
+Lemma exec_instr C m pos nxt i a b inp :
+  instr_at C pos nxt i -> C m -> readable i b -> nxt < W ->
+  taus inp (mk pos a b 0 m)
+       (mk nxt (fst (fst (sem i a b m))) (snd (fst (sem i a b m))) 0 (snd (sem i a b m))).
 Proof.
-  intros [Hpos Hat] Hr Hn. destruct (Hat a b inp) as (s' & Ht & Hpc & Ha & Hb & Hm & Hby).
+  intros [Hpos Hat] HC Hr Hn. destruct (Hat m a b inp HC) as (s' & Ht & Hpc & Ha & Hb & Hm & Hby).
   eapply taus_trans; [exact Ht|]. apply taus_one.
   assert (Hw : wrap (pc s' + 1) = nxt) by (rewrite Hpc; unfold wrap; replace (nxt - 1 + 1) with nxt by lia; apply Z.mod_small; lia).
   destruct i; cbn [opcode fst snd] in Hby; cbn [sem fst snd]; cbn [readable] in Hr.
@@ -190,6 +230,8 @@ Proof.
   - rewrite (step_ldbm s' inp _ Hby Hr). rewrite Hw, Ha, Hm. reflexivity.
   - rewrite (step_add s' inp Hby). rewrite Hw, Ha, Hb, Hm. reflexivity.
   - rewrite (step_sub s' inp Hby). rewrite Hw, Ha, Hb, Hm. reflexivity.
+  - rewrite <- Hb in Hr. rewrite (step_stai s' inp _ Hby Hr). rewrite Hw, Ha, Hb, Hm. reflexivity.
+  - rewrite <- Hb in Hr. rewrite (step_ldbi s' inp _ Hby Hr). rewrite Hw, Ha, Hb, Hm. reflexivity.
 Qed.
 
 (* ---------------------------------------------------------------- inversion of the spec interpreter *)
@@ -273,14 +315,48 @@ Qed.
 Section Correct.
   Variable addr : string -> option Z.
   Variable ge : genv.
-  Variable m : WMap.t.
+  Variable m0 : WMap.t.                 (* the memory when the expression's code starts *)
+  Variables sp size nslots : Z.         (* stack pointer mem[1], frame size, frame words usable as temporaries *)
+
+  (* the temporaries: frame offset k lives at sp + size - 1 - k, for 0 <= k < nslots *)
+  Definition thi : Z := sp + size - 1.
+  Definition tlo : Z := sp + size - nslots.
+  Definition T (a : Z) : Prop := tlo <= a <= thi.
+  (* memories that differ from m0 in temporaries only *)
+  Definition C (m : WMap.t) : Prop := forall a, 0 <= a -> ~ T a -> rd m a = rd m0 a.
+  (* m' differs from m only in temporaries of frame offset >= off *)
+  Definition keeps (off : Z) (m m' : WMap.t) : Prop := forall a, 0 <= a -> ~ (tlo <= a <= thi - off) -> rd m' a = rd m a.
+
+  Hypothesis Hsp : rd m0 1 = sp.
+  Hypothesis Hsp_not_temp : ~ T 1.
+  Hypothesis Htemps_in_memory : 0 <= tlo /\ thi < MEMW.
+  Hypothesis Hglobals_not_temps : forall x a, addr x = Some a -> ~ T a.
+
+  Lemma C_m0 : C m0. Proof. intros a _ _. reflexivity. Qed.
+  Lemma keeps_refl off m : keeps off m m. Proof. intros a _ _. reflexivity. Qed.
+  Lemma keeps_trans off m1 m2 m3 : keeps off m1 m2 -> keeps off m2 m3 -> keeps off m1 m3.
+  Proof. intros H1 H2 a Ha Hn. rewrite (H2 a Ha Hn). apply H1; assumption. Qed.
+  Lemma keeps_weaken off off' m m' : off <= off' -> keeps off' m m' -> keeps off m m'.
+  Proof. intros Hle H a Ha Hn. apply H; [exact Ha|]. lia. Qed.
+  Lemma keeps_C off m m' : 0 <= off -> C m -> keeps off m m' -> C m'.
+  Proof. intros Ho HC Hk a Ha Hn. rewrite (Hk a Ha). - apply HC; assumption. - unfold T in Hn. lia. Qed.
+  Lemma keeps_wr off m a v : tlo <= a <= thi - off -> keeps off m (wr m a v).
+  Proof. intros Ha b Hb Hn. apply rd_wr_other; lia. Qed.
+
+  Lemma in_mem_temp a : T a -> in_mem a = true.
+  Proof.
+    unfold T. intros H. destruct Htemps_in_memory as [H0 H1]. unfold in_mem.
+    apply andb_true_intro. split; [apply Z.leb_le | apply Z.ltb_lt]; lia.
+  Qed.
+  Lemma wrap_temp a : T a -> wrap a = a.
+  Proof. unfold T, wrap. intros H. destruct Htemps_in_memory as [H0 H1]. apply Z.mod_small. unfold MEMW, W in *. lia. Qed.
 
   (* the source state and the machine memory agree on the global variables; no local or val hides them *)
   Definition env_ok (st : state) : Prop :=
     forall x a, addr x = Some a ->
       assoc x (f_vars (top st)) = None /\ assoc x (f_vals (top st)) = None /\ assoc x (g_vals ge) = None /\
       in_mem a = true /\
-      exists v, assoc x (gvars st) = Some v /\ (v = Vundef \/ exists n, v = Vint n /\ rd m a = n mod W).
+      exists v, assoc x (gvars st) = Some v /\ (v = Vundef \/ exists n, v = Vint n /\ rd m0 a = n mod W).
 
   Lemma env_ok_same st st' : same_store st st' -> env_ok st -> env_ok st'.
   Proof.
@@ -322,7 +398,7 @@ Section Correct.
   Qed.
 
   Lemma var_eval x a f st v s : addr x = Some a -> env_ok st -> eval f ge (EVar x) st = Ret v s ->
-    exists n, v = Vint n /\ rd m a = n mod W /\ in_mem a = true /\ same_store st s.
+    exists n, v = Vint n /\ rd m0 a = n mod W /\ in_mem a = true /\ same_store st s.
   Proof.
     intros Hx Henv He. destruct f as [|f0]; [discriminate|]. cbn [eval eval_body] in He. unfold read_var in He.
     destruct (Henv x a Hx) as (H1 & H2 & H3 & H4 & (w & H5 & H6)).
@@ -331,28 +407,30 @@ Section Correct.
     inversion He; subst v s. exists n. repeat split; try assumption.
   Qed.
 
-  (* what the code must leave in the requested register *)
-  Definition lands (r : reg) (code : list instr) (n : Z) : Prop :=
-    forall pos nxt a b inp, code_at m pos code nxt -> nxt < W ->
+  (* what the code must leave in the requested register, from any admissible memory *)
+  Definition lands (r : reg) (code : list instr) (n off : Z) : Prop :=
+    forall m pos nxt a b inp, C m -> code_at C pos code nxt -> nxt < W ->
       match r with
-      | RA => exists b', taus inp (mk pos a b 0 m) (mk nxt (n mod W) b' 0 m)
+      | RA => exists b' m', taus inp (mk pos a b 0 m) (mk nxt (n mod W) b' 0 m') /\ keeps off m m'
       | RB => taus inp (mk pos a b 0 m) (mk nxt a (n mod W) 0 m)
       end.
 
-  Lemma lands_ldc r c : lands r [ldc r c] c.
+  Lemma lands_ldc r c off : lands r [ldc r c] c off.
   Proof.
-    intros pos nxt a b inp Hc Hn. cbn [code_at] in Hc. destruct Hc as (mid & Hi & <-).
+    intros m pos nxt a b inp HC Hc Hn. cbn [code_at] in Hc. destruct Hc as (mid & Hi & <-).
     destruct r; cbn [ldc] in *.
-    - exists b. exact (exec_instr m pos mid (LDAC c) a b inp Hi I Hn).
-    - exact (exec_instr m pos mid (LDBC c) a b inp Hi I Hn).
+    - exists b, m. split; [exact (exec_instr C m pos mid (LDAC c) a b inp Hi HC I Hn) | apply keeps_refl].
+    - exact (exec_instr C m pos mid (LDBC c) a b inp Hi HC I Hn).
   Qed.
 
-  Lemma lands_ldm r a n : in_mem a = true -> rd m a = n mod W -> lands r [ldm r a] n.
+  Lemma lands_ldm r x a n off : addr x = Some a -> in_mem a = true -> rd m0 a = n mod W -> lands r [ldm r a] n off.
   Proof.
-    intros Hin Hrd pos nxt a0 b inp Hc Hn. cbn [code_at] in Hc. destruct Hc as (mid & Hi & <-).
+    intros Hx Hin Hrd m pos nxt a0 b inp HC Hc Hn. cbn [code_at] in Hc. destruct Hc as (mid & Hi & <-).
+    assert (Ha0 : 0 <= a) by (unfold in_mem in Hin; apply andb_prop in Hin; destruct Hin as [H _]; apply Z.leb_le in H; exact H).
+    assert (Hm : rd m a = n mod W) by (rewrite (HC a Ha0 (Hglobals_not_temps x a Hx)); exact Hrd).
     destruct r; cbn [ldm] in *.
-    - exists b. rewrite <- Hrd. exact (exec_instr m pos mid (LDAM a) a0 b inp Hi Hin Hn).
-    - rewrite <- Hrd. exact (exec_instr m pos mid (LDBM a) a0 b inp Hi Hin Hn).
+    - exists b, m. split; [|apply keeps_refl]. rewrite <- Hm. exact (exec_instr C m pos mid (LDAM a) a0 b inp Hi HC Hin Hn).
+    - rewrite <- Hm. exact (exec_instr C m pos mid (LDBM a) a0 b inp Hi HC Hin Hn).
   Qed.
 
   Lemma wrap_add x y : wrap (x mod W + y mod W) = (x + y) mod W.
@@ -360,11 +438,26 @@ Section Correct.
   Lemma wrap_sub x y : wrap (x mod W - y mod W) = (x - y) mod W.
   Proof. unfold wrap. rewrite <- Zminus_mod. reflexivity. Qed.
 
-  Theorem cg_correct : forall e r code, cg addr e r = Some code ->
-    forall f st v s, eval f ge e st = Ret v s -> env_ok st ->
-    same_store st s /\ exists n, v = Vint n /\ lands r code n.
+  Lemma rd_sp m : C m -> rd m 1 = sp.
+  Proof. intros HC. rewrite (HC 1 ltac:(lia) Hsp_not_temp). exact Hsp. Qed.
+
+  Lemma ss_chain st sl sr s :
+    same_store (set_cur st eff0) sl ->
+    same_store (set_cur (set_cur sl (eff_union (cur st) (cur sl))) eff0) sr -> same_store sr s -> same_store st s.
   Proof.
-    induction e as [n|b|bs|x|a i|g args|n args|u e IHe|o l IHl rr IHr]; intros r code Hcg f st v s He Henv;
+    intros S1 S2 Hss.
+    eapply same_store_trans; [apply (same_store_set_cur st eff0)|].
+    eapply same_store_trans; [exact S1|].
+    eapply same_store_trans; [apply (same_store_set_cur sl (eff_union (cur st) (cur sl)))|].
+    eapply same_store_trans; [apply (same_store_set_cur _ eff0)|].
+    eapply same_store_trans; [exact S2 | exact Hss].
+  Qed.
+
+  Theorem cg_correct : forall e r off code, cg addr size nslots e r off = Some code -> 0 <= off ->
+    forall f st v s, eval f ge e st = Ret v s -> env_ok st ->
+    same_store st s /\ exists n, v = Vint n /\ lands r code n off.
+  Proof.
+    induction e as [n|b|bs|x|a i|g args|n args|u e IHe|o l IHl rr IHr]; intros r off code Hcg Hoff f st v s He Henv;
       cbn [cg] in Hcg.
     - (* number *)
       cbn [const_of] in Hcg. destruct (small (signed32 n)); [|discriminate]. inversion Hcg; subst code.
@@ -375,7 +468,7 @@ Section Correct.
     - (* global variable *)
       cbn [const_of] in Hcg. destruct (addr x) as [a|] eqn:Hx; [|discriminate]. inversion Hcg; subst code.
       destruct (var_eval x a f st v s Hx Henv He) as (n & -> & Hrd & Hin & Hss).
-      split; [exact Hss|]. exists n. split; [reflexivity | apply lands_ldm; assumption].
+      split; [exact Hss|]. exists n. split; [reflexivity | eapply lands_ldm; eassumption].
     - cbn [const_of] in Hcg. discriminate.
     - cbn [const_of] in Hcg. discriminate.
     - cbn [const_of] in Hcg. discriminate.
@@ -389,62 +482,136 @@ Section Correct.
       + assert (Ho : (o = Plus \/ o = Minus) /\ r = RA).
         { destruct o; try discriminate; destruct r; try discriminate; auto. }
         destruct Ho as [Ho ->].
-        assert (Hcg' : (if simple_right rr then
-                          match cg addr l RA, cg addr rr RB with
-                          | Some cl, Some cr => Some (cl ++ cr ++ [match o with Plus => ADD | _ => SUB end])
-                          | _, _ => None
-                          end
-                        else None) = Some code) by (destruct Ho as [-> | ->]; exact Hcg).
-        clear Hcg. destruct (simple_right rr); [|discriminate].
-        destruct (cg addr l RA) as [cl|] eqn:Ecl; [|discriminate].
-        destruct (cg addr rr RB) as [cr|] eqn:Ecr; [|discriminate].
-        inversion Hcg'; subst code; clear Hcg'.
+        set (opi := match o with Plus => ADD | _ => SUB end) in *.
+        assert (Hcg' :
+          (if simple_right rr then
+             match cg addr size nslots l RA off, cg addr size nslots rr RB off with
+             | Some cl, Some cr => Some (cl ++ cr ++ [opi])
+             | _, _ => None
+             end
+           else if (0 <=? off) && (off <? nslots) then
+             match cg addr size nslots rr RA off, cg addr size nslots l RA (off + 1) with
+             | Some cr, Some cl => Some (cr ++ [LDBM 1; STAI (size - 1 - off)] ++ cl ++ [LDBM 1; LDBI (size - 1 - off)] ++ [opi])
+             | _, _ => None
+             end
+           else None) = Some code) by (destruct Ho as [-> | ->]; exact Hcg).
+        clear Hcg.
         destruct (eval_arith f ge o l rr st v s Ho He) as (f1 & f2 & x & y & sl & sr & z & H1 & H2 & Hb & -> & Hss).
         assert (E0 : env_ok (set_cur st eff0)) by (eapply env_ok_same; [apply same_store_set_cur | exact Henv]).
-        destruct (IHl RA cl Ecl f1 _ _ _ H1 E0) as [S1 (x' & Hx' & Ll)]. inversion Hx'; subst x'.
-        assert (E1 : env_ok (set_cur (set_cur sl (eff_union (cur st) (cur sl))) eff0)).
-        { eapply env_ok_same; [|exact E0].
-          eapply same_store_trans; [exact S1|].
-          eapply same_store_trans; [apply (same_store_set_cur sl (eff_union (cur st) (cur sl)))|].
-          apply same_store_set_cur. }
-        destruct (IHr RB cr Ecr f2 _ _ _ H2 E1) as [S2 (y' & Hy' & Lr)]. inversion Hy'; subst y'.
-        split.
-        * eapply same_store_trans; [apply (same_store_set_cur st eff0)|].
-          eapply same_store_trans; [exact S1|].
-          eapply same_store_trans; [apply (same_store_set_cur sl (eff_union (cur st) (cur sl)))|].
-          eapply same_store_trans; [apply (same_store_set_cur _ eff0)|].
-          eapply same_store_trans; [exact S2 | exact Hss].
-        * exists z. split; [reflexivity|].
-          intros pos nxt a0 b0 inp Hc Hn.
-          destruct (code_at_app m cl _ pos nxt Hc) as (mid1 & Hc1 & Hc23).
-          destruct (code_at_app m cr _ mid1 nxt Hc23) as (mid2 & Hc2 & Hc3).
+        assert (Hz : z mod W = match o with Plus => wrap (x mod W + y mod W) | _ => wrap (x mod W - y mod W) end).
+        { destruct Ho as [-> | ->]; cbn [binop_ans] in Hb.
+          - destruct (in_int (x + y)); [|discriminate]. inversion Hb; subst z. symmetry. apply wrap_add.
+          - destruct (in_int (x - y)); [|discriminate]. inversion Hb; subst z. symmetry. apply wrap_sub. }
+        destruct (simple_right rr).
+        * (* right operand straight into breg *)
+          destruct (cg addr size nslots l RA off) as [cl|] eqn:Ecl; [|discriminate].
+          destruct (cg addr size nslots rr RB off) as [cr|] eqn:Ecr; [|discriminate].
+          inversion Hcg'; subst code; clear Hcg'.
+          destruct (IHl RA off cl Ecl Hoff f1 _ _ _ H1 E0) as [S1 (x' & Hx' & Ll)]. inversion Hx'; subst x'.
+          assert (E1 : env_ok (set_cur (set_cur sl (eff_union (cur st) (cur sl))) eff0)).
+          { eapply env_ok_same; [|exact E0].
+            eapply same_store_trans; [exact S1|].
+            eapply same_store_trans; [apply (same_store_set_cur sl (eff_union (cur st) (cur sl)))|].
+            apply same_store_set_cur. }
+          destruct (IHr RB off cr Ecr Hoff f2 _ _ _ H2 E1) as [S2 (y' & Hy' & Lr)]. inversion Hy'; subst y'.
+          split; [exact (ss_chain st sl sr s S1 S2 Hss)|].
+          exists z. split; [reflexivity|].
+          intros m pos nxt a0 b0 inp HC Hc Hn.
+          destruct (code_at_app C cl _ pos nxt Hc) as (mid1 & Hc1 & Hc23).
+          destruct (code_at_app C cr _ mid1 nxt Hc23) as (mid2 & Hc2 & Hc3).
           cbn [code_at] in Hc3. destruct Hc3 as (mid3 & Hi & <-).
-          pose proof (code_at_le m _ _ _ Hc2) as Hle2.
+          pose proof (code_at_le C _ _ _ Hc2) as Hle2.
           assert (Hm2 : mid2 < W) by (destruct Hi as [[_ Hlt] _]; lia).
           assert (Hm1 : mid1 < W) by lia.
-          destruct (Ll pos mid1 a0 b0 inp Hc1 Hm1) as (b1 & T1).
-          pose proof (Lr mid1 mid2 (x mod W) b1 inp Hc2 Hm2) as T2.
-          exists (y mod W).
+          destruct (Ll m pos mid1 a0 b0 inp HC Hc1 Hm1) as (b1 & m1 & T1 & K1).
+          assert (HC1 : C m1) by exact (keeps_C off m m1 Hoff HC K1).
+          pose proof (Lr m1 mid1 mid2 (x mod W) b1 inp HC1 Hc2 Hm2) as T2.
+          exists (y mod W), m1. split; [|exact K1].
           eapply taus_trans; [exact T1|]. eapply taus_trans; [exact T2|].
-          destruct Ho as [-> | ->]; cbn [binop_ans] in Hb.
-          -- destruct (in_int (x + y)); [|discriminate]. inversion Hb; subst z.
-             pose proof (exec_instr m mid2 mid3 ADD (x mod W) (y mod W) inp Hi I Hn) as T3.
-             cbn [sem fst snd] in T3. rewrite wrap_add in T3. exact T3.
-          -- destruct (in_int (x - y)); [|discriminate]. inversion Hb; subst z.
-             pose proof (exec_instr m mid2 mid3 SUB (x mod W) (y mod W) inp Hi I Hn) as T3.
-             cbn [sem fst snd] in T3. rewrite wrap_sub in T3. exact T3.
+          rewrite Hz. unfold opi in Hi.
+          destruct Ho as [-> | ->].
+          -- exact (exec_instr C m1 mid2 mid3 ADD (x mod W) (y mod W) inp Hi HC1 I Hn).
+          -- exact (exec_instr C m1 mid2 mid3 SUB (x mod W) (y mod W) inp Hi HC1 I Hn).
+        * (* right operand spilled to the frame *)
+          destruct ((0 <=? off) && (off <? nslots)) eqn:Eoff; [|discriminate].
+          apply andb_prop in Eoff. destruct Eoff as [_ Eoff]. apply Z.ltb_lt in Eoff.
+          destruct (cg addr size nslots rr RA off) as [cr|] eqn:Ecr; [|discriminate].
+          destruct (cg addr size nslots l RA (off + 1)) as [cl|] eqn:Ecl; [|discriminate].
+          inversion Hcg'; subst code; clear Hcg'.
+          destruct (IHl RA (off + 1) cl Ecl ltac:(lia) f1 _ _ _ H1 E0) as [S1 (x' & Hx' & Ll)]. inversion Hx'; subst x'.
+          assert (E1 : env_ok (set_cur (set_cur sl (eff_union (cur st) (cur sl))) eff0)).
+          { eapply env_ok_same; [|exact E0].
+            eapply same_store_trans; [exact S1|].
+            eapply same_store_trans; [apply (same_store_set_cur sl (eff_union (cur st) (cur sl)))|].
+            apply same_store_set_cur. }
+          destruct (IHr RA off cr Ecr Hoff f2 _ _ _ H2 E1) as [S2 (y' & Hy' & Lr)]. inversion Hy'; subst y'.
+          split; [exact (ss_chain st sl sr s S1 S2 Hss)|].
+          exists z. split; [reflexivity|].
+          intros m pos nxt a0 b0 inp HC Hc Hn.
+          (* the slot of frame offset off *)
+          set (slot := thi - off).
+          assert (Hslot : T slot) by (unfold T, slot, tlo, thi in *; lia).
+          assert (Hk : sp + (size - 1 - off) = slot) by (unfold slot, thi; lia).
+          destruct (code_at_app C cr _ pos nxt Hc) as (p1 & Hc1 & Hc').
+          cbn [app code_at] in Hc'. destruct Hc' as (p2 & Hi2 & p3 & Hi3 & Hc'').
+          destruct (code_at_app C cl _ p3 nxt Hc'') as (p4 & Hc4 & Hc''').
+          cbn [app code_at] in Hc'''. destruct Hc''' as (p5 & Hi5 & p6 & Hi6 & p7 & Hi7 & <-).
+          pose proof (code_at_le C _ _ _ Hc4) as Hle4.
+          assert (B6 : p6 < W) by (destruct Hi7 as [[_ H] _]; lia).
+          assert (B5 : p5 < W) by (destruct Hi6 as [[_ H] _]; lia).
+          assert (B4 : p4 < W) by (destruct Hi5 as [[_ H] _]; lia).
+          assert (B3 : p3 < W) by lia.
+          assert (B2 : p2 < W) by (destruct Hi3 as [[_ H] _]; lia).
+          assert (B1 : p1 < W) by (destruct Hi2 as [[_ H] _]; lia).
+          (* 1: the right operand *)
+          destruct (Lr m pos p1 a0 b0 inp HC Hc1 B1) as (b1 & m1 & T1 & K1).
+          assert (HC1 : C m1) by exact (keeps_C off m m1 Hoff HC K1).
+          (* 2: LDBM 1 *)
+          pose proof (exec_instr C m1 p1 p2 (LDBM 1) (y mod W) b1 inp Hi2 HC1 eq_refl B2) as T2.
+          cbn [sem fst snd] in T2. rewrite (rd_sp m1 HC1) in T2.
+          (* 3: STAI *)
+          assert (R3 : readable (STAI (size - 1 - off)) sp).
+          { cbn [readable]. rewrite Hk, (wrap_temp slot Hslot). apply in_mem_temp. exact Hslot. }
+          pose proof (exec_instr C m1 p2 p3 (STAI (size - 1 - off)) (y mod W) sp inp Hi3 HC1 R3 B3) as T3.
+          cbn [sem fst snd] in T3. rewrite Hk, (wrap_temp slot Hslot) in T3.
+          set (m2 := wr m1 slot (y mod W)) in *.
+          assert (K2 : keeps off m m2).
+          { eapply keeps_trans; [exact K1|]. apply keeps_wr. unfold T, slot in *. lia. }
+          assert (HC2 : C m2) by exact (keeps_C off m m2 Hoff HC K2).
+          (* 4: the left operand, one frame offset higher *)
+          destruct (Ll m2 p3 p4 (y mod W) sp inp HC2 Hc4 B4) as (b4 & m3 & T4 & K4).
+          assert (K3 : keeps off m m3).
+          { eapply keeps_trans; [exact K2|]. eapply keeps_weaken; [|exact K4]. lia. }
+          assert (HC3 : C m3) by exact (keeps_C off m m3 Hoff HC K3).
+          assert (Hsaved : rd m3 slot = y mod W).
+          { rewrite (K4 slot). - unfold m2. apply rd_wr_same. - unfold T, slot, tlo in *. lia. - unfold slot. lia. }
+          (* 5: LDBM 1; LDBI *)
+          pose proof (exec_instr C m3 p4 p5 (LDBM 1) (x mod W) b4 inp Hi5 HC3 eq_refl B5) as T5.
+          cbn [sem fst snd] in T5. rewrite (rd_sp m3 HC3) in T5.
+          assert (R6 : readable (LDBI (size - 1 - off)) sp).
+          { cbn [readable]. rewrite Hk, (wrap_temp slot Hslot). apply in_mem_temp. exact Hslot. }
+          pose proof (exec_instr C m3 p5 p6 (LDBI (size - 1 - off)) (x mod W) sp inp Hi6 HC3 R6 B6) as T6.
+          cbn [sem fst snd] in T6. rewrite Hk, (wrap_temp slot Hslot), Hsaved in T6.
+          (* 6: the operator *)
+          exists (y mod W), m3. split; [|exact K3].
+          eapply taus_trans; [exact T1|]. eapply taus_trans; [exact T2|]. eapply taus_trans; [exact T3|].
+          eapply taus_trans; [exact T4|]. eapply taus_trans; [exact T5|]. eapply taus_trans; [exact T6|].
+          rewrite Hz. unfold opi in Hi7.
+          destruct Ho as [-> | ->].
+          -- exact (exec_instr C m3 p6 p7 ADD (x mod W) (y mod W) inp Hi7 HC3 I Hn).
+          -- exact (exec_instr C m3 p6 p7 SUB (x mod W) (y mod W) inp Hi7 HC3 I Hn).
   Qed.
 
-  (* the statement used in Properties_C01: areg holds the spec's value when the code has been run on the ISA *)
-  Corollary expr_fragment : forall e code, cg addr e RA = Some code ->
+  (* the statement used in Properties_C01 *)
+  Corollary expr_fragment : forall e off code, cg addr size nslots e RA off = Some code -> 0 <= off ->
     forall f st n s, eval f ge e st = Ret (Vint n) s -> env_ok st ->
-    forall pos nxt a b inp, code_at m pos code nxt -> nxt < W ->
-    exists k s', (forall evs, Isa.run k (mk pos a b 0 m) inp evs = (rev evs, inp, s', Cut)) /\
-                 pc s' = nxt /\ areg s' = n mod W /\ oreg s' = 0 /\ mem s' = m.
+    forall pos nxt a b inp, code_at C pos code nxt -> nxt < W ->
+    exists k s', Isa.run k (mk pos a b 0 m0) inp [] = ([], inp, s', Cut) /\
+                 pc s' = nxt /\ areg s' = n mod W /\ oreg s' = 0 /\ keeps off m0 (mem s').
   Proof.
-    intros e code Hcg f st n s He Henv pos nxt a b inp Hc Hn.
-    destruct (cg_correct e RA code Hcg f st (Vint n) s He Henv) as [_ (n' & Hn' & L)]. inversion Hn'; subst n'.
-    destruct (L pos nxt a b inp Hc Hn) as (b' & T). destruct (taus_run inp _ _ T) as (k & Hk).
-    exists k, (mk nxt (n mod W) b' 0 m). repeat split. exact Hk.
+    intros e off code Hcg Hoff f st n s He Henv pos nxt a b inp Hc Hn.
+    destruct (cg_correct e RA off code Hcg Hoff f st (Vint n) s He Henv) as [_ (n' & Hn' & L)]. inversion Hn'; subst n'.
+    destruct (L m0 pos nxt a b inp C_m0 Hc Hn) as (b' & m' & [k Hk] & K).
+    exists k, (mk nxt (n mod W) b' 0 m'). repeat split; [exact Hk | exact K].
   Qed.
 End Correct.
